@@ -122,6 +122,7 @@ class SrcInfo:
         self.enums = {}       # name -> [(variant, discr)]
         self.enum_dups = set()
         self._impl_cache = {}
+        self._fn_gen_cache = {}
         d = os.path.join(repo_root, 'a2lfile', 'src')
         for dp, dn, fn in os.walk(d):
             for f in fn:
@@ -158,6 +159,46 @@ class SrcInfo:
                 self.enum_dups.add(name)
             else:
                 self.enums[name] = variants
+
+    def fn_generics(self, fname, file_hint=None):
+        """type/const generic parameter names of `fn fname<...>` as declared in the source (lifetimes skipped)"""
+        key = (fname, file_hint)
+        if key in self._fn_gen_cache:
+            return self._fn_gen_cache[key]
+        res = None
+        files = list(self.files.items())
+        if file_hint:
+            files.sort(key=lambda kv: 0 if kv[0].endswith(file_hint) else 1)
+        for rel, (lines, st) in files:
+            m = re.search(r'\bfn\s+' + re.escape(fname) + r'\s*<', st)
+            if not m:
+                continue
+            i = m.end() - 1
+            depth = 0
+            j = i
+            while j < len(st):
+                ch = st[j]
+                if ch == '<':
+                    depth += 1
+                elif ch == '>' and st[j - 1] not in '-=':
+                    depth -= 1
+                    if depth == 0:
+                        break
+                j += 1
+            params = []
+            for part in _split_commas(st[i + 1:j]):
+                part = part.strip()
+                if part.startswith("'"):
+                    continue
+                if part.startswith('const '):
+                    part = part[6:]
+                mm = re.match(r'^(\w+)', part)
+                if mm:
+                    params.append(mm.group(1))
+            res = params
+            break
+        self._fn_gen_cache[key] = res
+        return res
 
     def impl_at(self, span):
         """span text 'a2lfile/src/x.rs:L1:C1: L2:C2' -> (trait|None, self_head) ; heads are last path segments."""
